@@ -6,6 +6,6 @@ for s in "$@"; do
     t0=$(date +%s)
     out=$(VERIF_SEED=$s ./check $p quick 2>&1); rc=$?
     echo "seed=$s $p rc=$rc $(( $(date +%s)-t0 ))s  $(echo "$out" | grep -c '^VIOLATION') violations"
-    echo "$out" | grep -A3 '^VIOLATION' | cut -c1-300
+    echo "$out" | grep -a -A3 '^VIOLATION\|harness trouble\|no heap report' | cut -c1-300
   done
 done
